@@ -229,6 +229,7 @@ func (c *Conn) WriteToPair(pairID uint64, packet []byte) (int, error) {
 	n, err := pair.Write(packet)
 	if n > 0 {
 		pair.UpdatePacketSent(n)
+		c.bytesSent.Add(uint64(n))
 	}
 
 	return n, err
